@@ -348,8 +348,13 @@ func (s *streamGRPC) decompress(dst *bytes.Buffer, b []byte) error {
 	if err != nil {
 		return err
 	}
-	if _, err := dst.ReadFrom(r); err != nil {
+	// Inflate at most one byte more than the receive limit.
+	limit := int64(s.opts.maxReceiveMessageSize)
+	if _, err := dst.ReadFrom(io.LimitReader(r, limit+1)); err != nil {
 		return err
+	}
+	if int64(dst.Len()) > limit {
+		return fmt.Errorf("grpc: received message after decompression larger than max (%d)", limit)
 	}
 	return nil
 }
